@@ -67,6 +67,7 @@ var Mutants = []Mutant{
 	{ID: "exprlist-continue-on-error", Props: []string{"C03"}, Rule: "R-PROGRESS", File: "pkg/parser/expression.go", Find: "\t\tn := p.parseExprWSS()\n\t\tif n == nil {\n\t\t\treturn nil // previous error\n\t\t}\n\t\tlist = append(list, n)", Replace: "\t\tn := p.parseExprWSS()\n\t\tif n == nil {\n\t\t\tcontinue // previous error\n\t\t}\n\t\tlist = append(list, n)", Expect: "parseExprList#loop[1]:progress", Describe: "argument list keeps going after an error without consuming anything"},
 	{ID: "arraylit-no-eof-test", Props: []string{"C03"}, Rule: "R-PROGRESS", File: "pkg/parser/expression.go", Find: "\tfor tt != lexer.RBRACKET && tt != lexer.EOF {\n\t\telTok := p.cur", Replace: "\tfor tt != lexer.RBRACKET {\n\t\telTok := p.cur", Expect: "parseArrayLiteral#loop[1]:eof-exit", Describe: "unterminated array literal spins at the end of the input"},
 	{ID: "comment-runs-past-end", Props: []string{"C03"}, Rule: "R-PROGRESS", File: "pkg/lexer/lexer.go", Find: "return r != 0 && r != '\\n' })", Replace: "return r != '\\n' })", Expect: "readWhile#loop[1]:eof-exit", Describe: "a comment on the last line without newline never ends"},
+	{ID: "assign-target-dot-no-progress", Props: []string{"C03"}, Rule: "R-PROGRESS", File: "pkg/parser/parser.go", Find: "\t\t} else if p.cur.TokenType() == lexer.DOT {\n\t\t\tn = p.parseDotExpr(n)\n\t\t}\n\t\ttt = p.cur.TokenType()", Replace: "\t\t} else if p.cur.TokenType() == lexer.DOT {\n\t\t\tif n.Type().Name != MAP {\n\t\t\t\tp.appendErrorForToken(\"field access expects map type\", tok)\n\t\t\t\tcontinue\n\t\t\t}\n\t\t\tn = p.parseDotExpr(n)\n\t\t}\n\t\ttt = p.cur.TokenType()", Expect: "parseAssignmentTarget#loop[1]:progress", Describe: "a loop behind a call that always advances (never seen from the function entry) spins on `n.x = 1` with n a num"},
 	{ID: "unknown-func-no-skip", Props: []string{"C03"}, Rule: "R-PROGRESS", File: "pkg/parser/parser.go", Find: "\t\tp.appendError(fmt.Sprintf(\"unknown function %q\", p.cur.Literal))\n\t\tp.advancePastNL()\n\t\treturn nil", Replace: "\t\tp.appendError(fmt.Sprintf(\"unknown function %q\", p.cur.Literal))\n\t\treturn nil", Expect: "#loop[1]:progress", Describe: "an unknown function name is reported for ever"},
 	{ID: "pos-reset-in-statement", Props: []string{"C03"}, Rule: "R-PROGRESS", File: "pkg/parser/parser.go", Find: "\tp.appendError(\"unexpected input \" + p.cur.Format())\n\tp.advancePastNL()\n\treturn nil", Replace: "\tp.appendError(\"unexpected input \" + p.cur.Format())\n\tp.advanceTo(p.pos)\n\tp.advancePastNL()\n\treturn nil", Expect: "parseStatement#reposition", Describe: "the position is reset from inside the statement loop"},
 	{ID: "range-extra-args-dropped", Props: []string{"C05", "C04", "C06"}, Rule: "R-LISTUSE", File: "pkg/parser/parser.go", Find: "\tif len(nodes) > 1 && t.Name != NUM {\n\t\tp.appendError(\"range with more than one argument must be num, found \" + t.String())\n\t\treturn nil\n\t}\n", Replace: "", Expect: "parseForStatement#list", Describe: "extra operands after a string/array/map range are accepted and dropped"},
